@@ -922,22 +922,30 @@ func (r *envelopingReader) Read(data []byte) (n int, err error) {
 		r.envRemain -= n
 		return n, nil
 	}
-	if r.current != nil {
-		bytesRead, err := r.current.Read(data)
-		isEOF := errors.Is(err, io.EOF)
-		if bytesRead > 0 && (err == nil || isEOF) {
-			return bytesRead, nil
+	for first := true; first || (r.envRemain == 0 && len(data) > 0); first = false {
+		// (The loop only repeats for a message that is empty and gets no envelope
+		// toward the server: nothing can be handed over for it, and whether the
+		// stream ends there is for the next envelope, or its absence, to say.)
+		if r.current != nil {
+			bytesRead, err := r.current.Read(data)
+			isEOF := errors.Is(err, io.EOF)
+			if bytesRead > 0 && (err == nil || isEOF) {
+				return bytesRead, nil
+			}
+			if err != nil && !isEOF {
+				r.err = err
+				return bytesRead, err
+			}
+			// otherwise EOF, fall through
 		}
-		if err != nil && !isEOF {
-			r.err = err
-			return bytesRead, err
-		}
-		// otherwise EOF, fall through
-	}
 
-	if err := r.prepareNext(); err != nil {
-		r.err = err
-		return 0, err
+		if err := r.prepareNext(); err != nil {
+			r.err = err
+			return 0, err
+		}
+		if exact, ok := r.current.(*exactLengthReader); !ok || exact.remaining > 0 {
+			break
+		}
 	}
 
 	if len(data) < r.envRemain {
